@@ -53,6 +53,10 @@ pub struct ParWorkload {
     /// configuration swarm: (dependency_analysis, debug_mode argument of execute_parallel)
     #[serde(default)]
     pub cfg: (bool, bool),
+    /// the four fields are members of ONE object fact `F` (read through nested paths) instead of four flat
+    /// keys `F.a` .. `F.d`; fact-writing actions then use set_nested on a member nobody reads
+    #[serde(default)]
+    pub nested: bool,
 }
 
 fn fname(f: u8) -> String {
@@ -132,7 +136,7 @@ fn build_kb(w: &ParWorkload) -> KnowledgeBase {
             actions.push(ActionType::Set { field: fname(f), value: Value::Integer(v) });
         }
         if let Some(k) = r.custom {
-            actions.push(ActionType::Custom { action_type: ["dropD", "setD7", "setE7"][k as usize % 3].to_string(), params: std::collections::HashMap::new() });
+            actions.push(ActionType::Custom { action_type: ["dropD", "setD7", "setE7", "nestE7"][k as usize % 4].to_string(), params: std::collections::HashMap::new() });
         }
         let mut rule = Rule::new(format!("R{i}"), to_group(&r.cond), actions).with_salience(r.salience);
         rule.enabled = r.enabled;
@@ -143,8 +147,16 @@ fn build_kb(w: &ParWorkload) -> KnowledgeBase {
 
 fn build_facts(w: &ParWorkload) -> Facts {
     let facts = Facts::new();
-    for f in 0..4u8 {
-        facts.set(&fname(f), Value::Integer(w.facts[f as usize]));
+    if w.nested {
+        let mut o = std::collections::HashMap::new();
+        for f in 0..4usize {
+            o.insert(["a", "b", "c", "d"][f].to_string(), Value::Integer(w.facts[f]));
+        }
+        facts.set("F", Value::Object(o));
+    } else {
+        for f in 0..4u8 {
+            facts.set(&fname(f), Value::Integer(w.facts[f as usize]));
+        }
     }
     facts
 }
@@ -164,6 +176,11 @@ fn engine(w: &ParWorkload, enabled: bool) -> ParallelRuleEngine {
     });
     e.register_function("setD7", |_args: &[Value], f: &Facts| {
         f.set("F.d", Value::Integer(7));
+        Ok(Value::Boolean(true))
+    });
+    // nested facts: writes a member of the object F that no rule reads — on any level, beside any reader
+    e.register_function("nestE7", |_args: &[Value], f: &Facts| {
+        let _ = f.set_nested("F.e", Value::Integer(7));
         Ok(Value::Boolean(true))
     });
     // writes a key of its own that no rule reads: may run beside either of the other two on any schedule
@@ -259,7 +276,7 @@ pub fn scenario(w: &ParWorkload, slot: &Shared) {
         count(slot, "probe.literal_of_another_type_than_the_field");
     }
     if w.rules.iter().any(|r| r.custom.is_some() && r.enabled) {
-        count(slot, "probe.action_that_writes_a_fact_on_the_top_level");
+        count(slot, if w.nested { "probe.action_that_writes_a_member_of_the_object_fact" } else { "probe.action_that_writes_a_fact_on_the_top_level" });
     }
     if !w.enabled {
         count(slot, "probe.parallelism_off");
@@ -329,6 +346,14 @@ pub fn generate(rng: &mut Rng, _thorough: bool) -> ParWorkload {
             }
         }
     }
+    // one workload in four keeps the fields in one object fact; there the only writer is `nestE7`
+    // (set_nested on a member nobody reads), which may sit on ANY level because no verdict depends on it
+    let nested = rng.chance(1, 4);
+    if nested {
+        for r in rules.iter_mut() {
+            r.custom = if rng.chance(1, 4) { Some(3) } else { None };
+        }
+    }
     ParWorkload {
         rules,
         facts: [rng.range(-1, 3), rng.range(-1, 3), rng.range(-1, 3), rng.range(-1, 3)],
@@ -336,6 +361,7 @@ pub fn generate(rng: &mut Rng, _thorough: bool) -> ParWorkload {
         min_rules_per_thread: 1 + rng.usize(4),
         enabled: !rng.chance(1, 6),
         cfg: (rng.chance(1, 2), rng.chance(1, 10)),
+        nested,
     }
 }
 
